@@ -253,7 +253,12 @@ def gen(rng, tier):
         cases.append(c)
     for i in range(30 if tier == 'quick' else 500):
         cases.append(D.decorate_py(rng, D.gen_dbprog(rng, loopy=0.7)))
-    return cases
+    # round 4: suspended goals on predicates of every size class (see C07) with updates in between; clear() while suspended
+    extra = [D.gen_big_history(rng) for i in range(40 if tier == 'quick' else 500)]
+    extra += [D.gen_clear_history(rng) for i in range(30 if tier == 'quick' else 500)]
+    for c in extra:
+        c['kind'] = 'events'
+    return D.spread(cases, extra)
 
 def builtin_corpus():
     v = lambda i: ['v', i]
